@@ -1,4 +1,5 @@
 pub mod admin_props;
+pub mod c03;
 pub mod c04;
 pub mod c07;
 pub mod c12;
@@ -47,5 +48,6 @@ pub fn registry() -> Vec<PropertyDef> {
     v.extend(im_props::defs());
     v.extend(im_props::defs_c13());
     v.extend(c12::defs());
+    v.extend(c03::defs());
     v
 }
